@@ -96,7 +96,8 @@ def _get_level_badge(level):
         return "Readable", "badge-pass"
     elif level == "AAA" or level == "AAA Large":
         return "Very Readable", "badge-pass"
-    return level, "badge-pass"
+    # any other label is shown as given: escape it like the rest of the card
+    return html.escape(str(level)), "badge-pass"
 
 
 def to_html(
